@@ -15723,7 +15723,8 @@ func (p *PathAttributeTunnelEncap) DecodeFromBytes(data []byte, options ...*Mars
 	if err != nil {
 		return err
 	}
-	for len(value) > 4 {
+	// the shortest TLV is Type(2) + Length(2) without any sub-TLV
+	for len(value) >= 4 {
 		tlv := &TunnelEncapTLV{}
 		err = tlv.DecodeFromBytes(value)
 		if err != nil {
